@@ -10,12 +10,14 @@ package webrtc
 
 import (
 	"fmt"
+	"runtime"
 	"sort"
 	"strings"
 	"sync"
 	"testing"
 	"time"
 
+	"github.com/pion/logging"
 	"pgregory.net/rapid"
 )
 
@@ -26,16 +28,51 @@ type vfC24Case struct {
 	Choices  []int `json:"choices"`
 }
 
-var vfC24Points = []string{"gather.cand.entry", "gather.nil.afterComplete", "flush.afterTake", "flush.beforeNil"}
+// gather.log: every log call made from icegatherer.go is a schedule point too (a goroutine that
+// logs between a check and the action it guards can be overtaken there)
+var vfC24Points = []string{"gather.cand.entry", "gather.nil.afterComplete", "flush.afterTake", "flush.beforeNil", "gather.log"}
+
+type vfC24LoggerFactory struct{ gates **vfGates }
+
+type vfC24Logger struct{ gates **vfGates }
+
+func (f vfC24LoggerFactory) NewLogger(string) logging.LeveledLogger { return vfC24Logger{f.gates} }
+
+func (l vfC24Logger) yield() {
+	g := *l.gates
+	if g == nil {
+		return
+	}
+	// only calls made from icegatherer.go (the code under test), not from pion/ice or elsewhere
+	for skip := 2; skip <= 4; skip++ {
+		if _, file, _, ok := runtime.Caller(skip); ok && strings.HasSuffix(file, "/icegatherer.go") {
+			g.hook("gather.log", nil, 0)
+			return
+		}
+	}
+}
+func (l vfC24Logger) Trace(string)          { l.yield() }
+func (l vfC24Logger) Tracef(string, ...any) { l.yield() }
+func (l vfC24Logger) Debug(string)          { l.yield() }
+func (l vfC24Logger) Debugf(string, ...any) { l.yield() }
+func (l vfC24Logger) Info(string)           { l.yield() }
+func (l vfC24Logger) Infof(string, ...any)  { l.yield() }
+func (l vfC24Logger) Warn(string)           { l.yield() }
+func (l vfC24Logger) Warnf(string, ...any)  { l.yield() }
+func (l vfC24Logger) Error(string)          { l.yield() }
+func (l vfC24Logger) Errorf(string, ...any) { l.yield() }
 
 func vfC24Exec(v *vfT, c vfC24Case) (branching []int) {
 	se := SettingEngine{}
 	se.SetIncludeLoopbackCandidate(c.Loopback)
 	se.SetNetworkTypes([]NetworkType{NetworkTypeUDP4})
+	var gatesRef *vfGates
+	se.LoggerFactory = vfC24LoggerFactory{&gatesRef}
 	api := NewAPI(WithSettingEngine(se))
 
 	gates := vfGatesInstall(vfC24Points)
 	gates.WatchAll()
+	gatesRef = gates
 	defer gates.Uninstall()
 	actors := vfNewActors()
 
